@@ -169,6 +169,12 @@ class PUSO(BO, PUSOMatrix):
         P = puso_to_pubo(self)
         P._mapping = self.mapping
         P._reverse_mapping = self.reverse_mapping
+        # self may report more variables than P found in its terms (for
+        # instance after a term of self cancelled). The mapping covers all
+        # of them, so the ancilla labels that P introduces when reducing its
+        # degree must start after self's variables, not after P's.
+        P._variables = self.variables
+        P._num_binary_variables = self.num_binary_variables
         return P
 
     def to_pubo(self, deg=None, lam=None, pairs=None):
